@@ -129,11 +129,13 @@ Inductive label :=
 | LServeStart | LServeStop (k : nat) | LWorkerRetire (k : nat)
 | LAccept (k : nat) (a : addr) | LServeConn (a : addr)
 | LRegister (c : nat) | LRejectIP (c : nat)
-| LOpenInc (c : nat) | LGetChOk (c : nat) | LGetChFail (c : nat) | LRejectDec (c : nat) | LRejectConc (c : nat)
+| LOpenInc (c : nat) | LGetChOk (c : nat) | LGetChFail (c : nat) | LRejectDec (c : nat) | LRejectConc (c : nat) (cerr : bool)
 | LTryAcquire (c : nat) | LAcquireFail (c : nat)
 | LStart (c : nat) | LRequest (c : nat) | LFinish (c : nat) | LHijack (c : nat)
-| LCleanupOpen (c : nat) | LCleanupConc (c : nat) | LCloseAfter (c : nat) | LWorkerRelease (c : nat) | LReleaseConc (c : nat)
-| LHijackDone (c : nat) | LUserClose (c : nat).
+| LCleanupOpen (c : nat) | LCleanupConc (c : nat) | LCloseAfter (c : nat) (cerr : bool) | LWorkerRelease (c : nat) | LReleaseConc (c : nat)
+| LHijackDone (c : nat) (cerr : bool) | LUserClose (c : nat) (cerr : bool).
+(* cerr: the Close of the underlying net.Conn (when this step reaches it) returns an error - a tls.Conn that cannot send its close_notify,
+   a custom connection; the step is the same for both outcomes, which is the point: see close_conn *)
 
 Fixpoint upd {A} (l : list A) (i : nat) (x : A) : list A :=
   match l, i with
@@ -153,9 +155,13 @@ Definition free_loop (ls : list lrec) (v : via) : list lrec :=
   | VConn => ls
   end.
 
-(* perIPConn.Close (idempotent: only the first call unregisters) on a wrapped connection, plain Close otherwise *)
-Definition close_conn (m : pmap) (r : crec) : pmap * crec :=
-  if reg r then (unregister m (cip r), mkC (cvia r) (cip r) false true (ph r) (hj r) (resp r))
+(* perIPConn.Close on a wrapped connection (idempotent: only the first call does anything), plain Close otherwise:
+     cc := c.Conn; c.Conn = nil; if cc == nil { return nil }; err := cc.Close(); c.perIPConnCounter.Unregister(c.ip); return err
+   cerr = the underlying Close failed.  The per-IP unit is given back in BOTH cases: the error is only remembered and returned
+   (a wrapper that has cleared c.Conn is never closed again, so an early return on error would leak the unit for ever). *)
+Definition close_conn (m : pmap) (r : crec) (cerr : bool) : pmap * crec :=
+  if reg r then
+    (if cerr then unregister m (cip r) else unregister m (cip r), mkC (cvia r) (cip r) false true (ph r) (hj r) (resp r))
   else (m, mkC (cvia r) (cip r) false true (ph r) (hj r) (resp r)).
 
 Definition set_conns (s : st) (cs : list crec) : st := mkSt (concurrency s) (open s) (serving s) (perip s) cs (loops s).
@@ -278,12 +284,12 @@ Definition step (cf : cfg) (s : st) (l : label) : option st :=
           end
       | None => None
       end
-  | LRejectConc c =>        (* writeFastError(503); c.Close() *)
+  | LRejectConc c cerr =>   (* writeFastError(503); c.Close() *)
       match nth_error (conns s) c with
       | Some r =>
           match ph r with
           | PRejecting =>
-              let (m', r') := close_conn (perip s) r in
+              let (m', r') := close_conn (perip s) r cerr in
               Some (mkSt (concurrency s) (open s) (serving s) m'
                          (upd (conns s) c (mkC (cvia r') (cip r') (reg r') (closed r') PDone (hj r') StatusServiceUnavailable))
                          (free_loop (loops s) (cvia r)))
@@ -367,14 +373,14 @@ Definition step (cf : cfg) (s : st) (l : label) : option st :=
           end
       | None => None
       end
-  | LCloseAfter c =>        (* workerFunc / ServeConn: if err != errHijacked { c.Close() } *)
+  | LCloseAfter c cerr =>   (* workerFunc / ServeConn: if err != errHijacked { c.Close() } *)
       match nth_error (conns s) c with
       | Some r =>
           match ph r with
           | PServed =>
               match hj r with
               | HNone =>
-                  let (m', r') := close_conn (perip s) r in
+                  let (m', r') := close_conn (perip s) r cerr in
                   Some (mkSt (concurrency s) (open s) (serving s) m' (upd (conns s) c (set_ph r' PReleasing)) (loops s))
               | _ => Some (set_conns s (upd (conns s) c (set_ph r PReleasing)))
               end
@@ -408,26 +414,26 @@ Definition step (cf : cfg) (s : st) (l : label) : option st :=
           end
       | None => None
       end
-  | LHijackDone c =>        (* hijackConnHandler: h(hjc) returned; if !KeepHijackedConns { c.Close() } *)
+  | LHijackDone c cerr =>   (* hijackConnHandler: h(hjc) returned; if !KeepHijackedConns { c.Close() } *)
       match nth_error (conns s) c with
       | Some r =>
           match hj r with
           | HRun =>
               if keep cf then Some (set_conns s (upd (conns s) c (set_hj r HDone)))
               else
-                let (m', r') := close_conn (perip s) r in
+                let (m', r') := close_conn (perip s) r cerr in
                 Some (mkSt (concurrency s) (open s) (serving s) m' (upd (conns s) c (set_hj r' HDone)) (loops s))
           | _ => None
           end
       | None => None
       end
-  | LUserClose c =>         (* one more Close on the connection object by somebody else than its goroutine; others can hold a
+  | LUserClose c cerr =>    (* one more Close on the connection object by somebody else than its goroutine; others can hold a
                                reference from the moment the request loop runs (s.idleConns, ctx.Conn(), the hijackConn) *)
       match nth_error (conns s) c with
       | Some r =>
           match ph r with
           | PServing | PEnding | PEnded | PServed | PReleasing | PDone =>
-              let (m', r') := close_conn (perip s) r in
+              let (m', r') := close_conn (perip s) r cerr in
               Some (mkSt (concurrency s) (open s) (serving s) m' (upd (conns s) c r') (loops s))
           | _ => None
           end
